@@ -158,6 +158,14 @@ def main(tier, seed, replay=None):
         for _ in range(nrand):
             b = gen_stream(rnd)
             scripts.append((random_script(rnd, b), b, "random"))
+        # long runs of events that yield no item (empty data, comments only, id / retry only) before real events:
+        # consumed in one poll, in always-ready small chunks, and with Pending polls in between
+        for filler in (b"data:\n\n", b"data\n\n", b": keep-alive\n\n", b"id: 7\n\n", b"retry: 10\n\n", b"\n"):
+            for n in (31, 32, 33, 40, 200):
+                b = filler * n + b"data: 1\n\n" + filler * n + b"data: [2]\n\ndata: 3\n\n"
+                scripts.append(([b], b, "runs"))
+                scripts.append(([b[i:i + 5] for i in range(0, len(b), 5)], b, "runs"))
+                scripts.append((random_script(rnd, b), b, "runs"))
         # malformed stream: ill-formed bytes, and the Known witnesses
         for b in [b"data: 1\n\n\xff" + b"data: 2\n\n", b"data: 1\n\n\xe2\x82", b"\xc0\x80data: 1\n\n"]:
             scripts.append((random_script(rnd, b), b, "malformed"))
@@ -201,14 +209,14 @@ def main(tier, seed, replay=None):
         "evaluations": len(scripts), "distinct_nontrivial": len(n_nontrivial),
         "traces_validated_against_impl": len(scripts) if model is not None else 0,
         "disagreements": len(dis),
-        "rule": f"poll scripts (chunks + Pending): all 2^(n-1) chunkings of {len(SHORT_STREAMS)} short streams cut to <= {11 if tier=='quick' else 14} bytes, random streams from the event grammar (valid/malformed JSON, empty data, comments, multi-line, LF/CRLF/CR, 2-4 byte scalars) with random cuts, empty chunks and Pending polls, plus ill-formed byte streams; each run through oas3_gen_support::EventStream (in-memory reqwest::Response) and through the extracted Coq machine; non-trivial = yields at least one item",
+        "rule": f"poll scripts (chunks + Pending): all 2^(n-1) chunkings of {len(SHORT_STREAMS)} short streams cut to <= {11 if tier=='quick' else 14} bytes, random streams from the event grammar (valid/malformed JSON, empty data, comments, multi-line, LF/CRLF/CR, 2-4 byte scalars) with random cuts, empty chunks and Pending polls, long runs (31..200) of item-less events before and between real events, plus ill-formed byte streams; the probe's executor honours the waker contract (Pending without a wake-up is reported as STALLED); each run through oas3_gen_support::EventStream (in-memory reqwest::Response) and through the extracted Coq machine; non-trivial = yields at least one item",
     })
     for i in (0, len(scripts) // 2, len(scripts) - 1):
         res.sample({"script": lines[i], "impl_items": impl[i]})
     res.oblige(f"correspondence: model = implementation on {len(scripts)} poll scripts", not dis, dis[0][1] if dis else "")
     res.cov["trusted_base"] = vlib.COMMON_TRUSTED + [
         "coq/Model/Sse.v: hand model of eventsource-stream 0.2.3 (Utf8Stream, nom streaming line parser, EventBuilder, EventStream::poll_next) and of oas3-gen-support::EventStream::poll_next",
-        "tools/sse_probe (scripted in-memory reqwest::Response, futures executor, catch_unwind); JSON decoder stub = python json raw_decode on both sides' raw event data",
+        "tools/sse_probe (scripted in-memory reqwest::Response, wake-counting executor, catch_unwind); JSON decoder stub = python json raw_decode on both sides' raw event data",
     ]
     res.assumptions = ["theorems quantify over well-formed UTF-8 byte streams; ill-formed streams are characterised by the executable model and the correspondence only",
                        "poll-level machine (one event per poll, Pending) is tied to the chunk-level theorems by C20_pending_noop and by correspondence, not by a full simulation proof",
